@@ -137,6 +137,20 @@ CLAIMED = {
                   "empty containers, docstring vocabulary for documented exceptions",
         design="DESIGN.md §4 C12, appendix B.4",
     ),
+    "C13": dict(
+        level="other",
+        text="Narrow structural clauses of placeholder cloning: the latent set {DATE, FOOTER, SLIDE_NUMBER} and the notes "
+             "cloneable set {SLIDE_IMAGE, BODY, SLIDE_NUMBER} are folded from the source and must equal the sets the statement "
+             "names, with the right polarity, over an in-order iteration; the four values read from the source placeholder "
+             "flow position-by-position through add_placeholder and new_placeholder_sp into the same-named attribute stores of "
+             "the new p:ph, whose readers read those attributes; Slides.add_slide creates the part from the layout's part, "
+             "clones placeholders, then registers the slide id with the new relationship id, and p:sldId is appended last "
+             "(decided with the C10 procedure); placeholder names come from the part-wide uniqueness loop. NOT decided: "
+             "inherited geometry values, one-to-one correspondence for exotic layouts.",
+        technique="static analysis: constant folding of type sets, positional parameter-flow tracing across three call levels, "
+                  "call-order check, C10 placement decision for p:sldId",
+        design="DESIGN.md §4 C13",
+    ),
     "C17": dict(
         level="other",
         text="Decides one structural clause of the group-extent part of the property: every public method of the group-capable "
